@@ -30,7 +30,9 @@
 //! w.clone()                                       // cheap world snapshots for drivers
 //! // SPL helpers (real processors): spl::create_mint, create_token_account, create_ata, mint_to,
 //! // token_balance, mint_supply          (module `spl`)
-//! // gmsol helpers: store::{store_pda, roles_ix, init_store, enable_role, grant_role, ...} (module `store`)
+//! // gmsol helpers: store::{ix, ix_for, store_pda, user_pda, init_store, bootstrap, enable_role, grant_role,
+//! //   check_role, prepare_user, ..} (module `store`); market::setup_market -> MarketEnv: token map, two SPL
+//! //   mints, vaults and a market created through the real instructions (module `market`)
 //! ```
 //!
 //! # Semantics implemented
